@@ -452,6 +452,11 @@ def alpha(fn):
     for n in ast.walk(fn):
         if isinstance(n, ast.Name) and isinstance(n.ctx, ast.Store):
             names.setdefault(n.id, "p%d" % len(names))
+        elif isinstance(n, (ast.FunctionDef, ast.AsyncFunctionDef)) and n is not fn:
+            # a nested function (continueUp / continueDown): a local like any other
+            names.setdefault(n.name, "p%d" % len(names))
+            n.name = names[n.name]
+            n.body = [s_ for s_ in n.body if not (isinstance(s_, ast.Expr) and isinstance(s_.value, ast.Constant))] or [ast.Pass()]
     for a in fn.args.args:
         a.arg = names[a.arg]
     for n in ast.walk(fn):
@@ -487,6 +492,64 @@ def rule_mirror(ctx):
         ctx.check("C18.mirror", ok, where(rel, "%s.%s" % (cn, b), fb.lineno), "%s.%s ~ %s" % (cn, a, b),
                   "%s is not the mirror image of %s (upper<->lower): mirrored %s reads `%s` but %s reads `%s`" % (b, a, a, " ".join(ta.split())[:200], b, " ".join(tb.split())[:200]),
                   "mirror images modulo upper<->lower")
+
+
+def rule_iface(ctx):
+    """interface lookup by class, by abstract execution: a stack [A, (B, C), (D, E), F] is built by YowStack's own
+    constructor (parallel groups by YowParallelLayer's), every layer instance is given a distinct interface object, and
+    stack.getLayerInterface(X) / some layer's getLayerInterface(X) are asked for every class: X's own interface comes
+    back wherever X sits - alone, in the first group, in a later group, above a group that does not contain it - and a
+    class that is not in the stack gives None"""
+    from ..absint import Interp, Obj, _Raise, NeedAtom, Budget, C_NONE
+    repo = ctx.repo
+    st = repo.cls(YS, "YowStack")
+    sgi = repo.method(YS, "YowStack", "getLayerInterface")
+    w = where(YS, "YowStack.getLayerInterface", getattr(sgi, "lineno", None))
+    K = [_stub_layer(repo, "Stub" + n) for n in "ABCDEFG"]
+    hooks = {"ext:*.isclass": lambda itp, recv, a, k, env, d, e: ("c", bool(a) and a[0][0] == "cls"), "ext:*.randint": lambda itp, recv, a, k, env, d, e: ("c", 0)}
+    tup = lambda *cs: ("list", [("cls", c) for c in cs], False, "tuple")
+    for label, arr, members in (("A, (B, C), (D, E), F", [("cls", K[0]), tup(K[1], K[2]), tup(K[3], K[4]), ("cls", K[5])], K[:6]),
+                                ("(B, C), A", [tup(K[1], K[2]), ("cls", K[0])], K[:3])):
+        it = Interp(repo, {}, {}, hooks=hooks)
+        o = Obj(st)
+        kk, init = repo.find_method(st, "__init__")
+        try:
+            it.call_function(init, kk, ("obj", o), [("list", list(arr)), ("c", False)], {}, depth=0)
+        except (_Raise, NeedAtom, Budget) as x:
+            ctx.undecided("C18.par", w, "stack %s" % label, "the constructor could not be executed: %s" % (getattr(x, "text", x),))
+            continue
+        insts = [v for n, v in o.fields.items() if n.endswith("stackInstances")]
+        if not insts or insts[0][0] != "list":
+            ctx.undecided("C18.par", w, "stack %s" % label, "instance list not found")
+            continue
+        layers = []
+        for x in insts[0][1]:
+            if x[0] != "obj":
+                continue
+            subs = x[1].fields.get("sublayers")
+            if subs is not None and subs[0] == "list":
+                layers += [y for y in subs[1] if y[0] == "obj"]
+            else:
+                layers.append(x)
+        want = {}
+        for y in layers:
+            if "interface" in y[1].fields:
+                y[1].fields["interface"] = ("ext", "IF:" + y[1].cls.name, [])
+                want[y[1].cls.name] = y[1].fields["interface"]
+        bad = []
+        askers = [("stack", ("obj", o))] + [("layer " + layers[-1][1].cls.name, layers[-1])] if layers else []
+        for who, recv in askers:
+            for c in members + [K[6]]:
+                try:
+                    r = it.method_call(recv, "getLayerInterface", [("cls", c)], {}, {"@module": st.module, "@owner": None}, 0, None)
+                except (_Raise, NeedAtom, Budget) as x:
+                    bad.append("%s.getLayerInterface(%s) cannot be followed / raises (%s)" % (who, c.name, str(getattr(x, "text", x))[:40]))
+                    continue
+                exp = want.get(c.name, C_NONE)
+                if r != exp:
+                    bad.append("%s.getLayerInterface(%s) gives %s, not %s" % (who, c.name, "None" if r == C_NONE else (r[1] if r[0] == "ext" else r[0]), "its interface" if exp != C_NONE else "None"))
+        ctx.check("C18.par", not bad and len(want) == len(members), w, "interfaces found by class in the stack %s" % label,
+                  "; ".join(bad[:3]) + (" (+%d more)" % (len(bad) - 3) if len(bad) > 3 else ""), "every layer's interface found from the stack and from a layer, absent class -> None (%d lookups)" % (len(askers) * (len(members) + 1)))
 
 
 def rule_stop(ctx):
@@ -681,6 +744,7 @@ def run(ctx):
     ctx.guarded("C18.flags", rule_flags, ctx)
     ctx.guarded("C18.wire", rule_wire, ctx)
     ctx.guarded("C18.mirror", rule_mirror, ctx)
+    ctx.guarded("C18.par", rule_iface, ctx)
     ctx.guarded("C18.stop", rule_stop, ctx)
     ctx.guarded("C18.par", rule_par, ctx)
     ctx.guarded("C18.state", rule_state, ctx)
